@@ -64,8 +64,14 @@ func (w *World) toClientKey(e map[string]any) (*stdoc.PublicKey, error) {
 	return pk, nil
 }
 
-func toClientService(e map[string]any) *docdid.Service {
+// toClientService converts a service entry. shared (may be nil) is ONE empty property map handed to several services of the
+// run's client calls (services derived from a template or by struct copy share their Properties map): whatever a builder
+// writes into it shows in all of them, in this call and in later ones.
+func toClientService(e map[string]any, shared map[string]interface{}) *docdid.Service {
 	s := &docdid.Service{}
+	if id, _ := e["id"].(string); shared != nil && len(id)%2 == 0 {
+		s.Properties = shared
+	}
 	s.ID, _ = e["id"].(string)
 	s.Type = e["type"]
 	switch ep := e["serviceEndpoint"].(type) {
@@ -285,7 +291,7 @@ func (wl *Wallet) buildWithClient(st *Step, rb *rawBuild, nextUpd, nextRec keyUs
 			opts = append(opts, create.WithPublicKey(pk))
 		}
 		for _, s := range content.addServices {
-			opts = append(opts, create.WithService(toClientService(s)))
+			opts = append(opts, create.WithService(toClientService(s, w.sharedProps())))
 		}
 		for _, u := range content.addAka {
 			opts = append(opts, create.WithAlsoKnownAs(u))
@@ -323,7 +329,7 @@ func (wl *Wallet) buildWithClient(st *Step, rb *rawBuild, nextUpd, nextRec keyUs
 				opts = append(opts, update.WithAddPublicKey(pk))
 			}
 			for _, s := range content.addServices {
-				opts = append(opts, update.WithAddService(toClientService(s)))
+				opts = append(opts, update.WithAddService(toClientService(s, w.sharedProps())))
 			}
 			for _, u := range content.addAka {
 				opts = append(opts, update.WithAddAlsoKnownAs(u))
@@ -350,7 +356,7 @@ func (wl *Wallet) buildWithClient(st *Step, rb *rawBuild, nextUpd, nextRec keyUs
 				opts = append(opts, recovery.WithPublicKey(pk))
 			}
 			for _, s := range content.addServices {
-				opts = append(opts, recovery.WithService(toClientService(s)))
+				opts = append(opts, recovery.WithService(toClientService(s, w.sharedProps())))
 			}
 			for _, u := range content.addAka {
 				opts = append(opts, recovery.WithAlsoKnownAs(u))
@@ -382,4 +388,12 @@ func (wl *Wallet) buildWithClient(st *Step, rb *rawBuild, nextUpd, nextRec keyUs
 		w.T.Probe("retry_duplicate")
 	}
 	return captured[0], nil
+}
+
+// sharedProps is the run's shared (empty) service property map.
+func (w *World) sharedProps() map[string]interface{} {
+	if w.svcProps == nil {
+		w.svcProps = map[string]interface{}{}
+	}
+	return w.svcProps
 }
